@@ -174,6 +174,16 @@ check("C04", "fault_enumeration",
       "ordinary error = Exception subclass; leftover tmp files after a failed ingestion are counted, not judged; Pack.get_raw trusts its idx by design, only store[id] is judged for damaged indexes; the inflation bound is declared size + 64 KiB per zlib stream",
       "DESIGN.md §5 C04")
 
+check("C14", "exploration",
+      "differential runtime monitor: a battery of ~300-1500 queries (lookup by hex/binary id, membership, iteration, parents provider, find_shallow, get_depth, _collect_ancestors, both reachability providers, MissingObjectFinder, merge bases, walker, refs/peeled/symrefs) is answered by a fresh Repo on the repository with its acceleration files and on a byte copy stripped of them; probes count how often commit-graph, midx and bitmap actually produced an answer; differing answers are attributed by removing one accelerator at a time",
+      "C05 history generator (merges, octopus, multiple roots, all tag kinds, gitlinks; 1-3 packs + loose) x subsets of {commit-graph, midx, bitmap "
+      "(hash cache/lookup table on/off), packed-refs, idx v1/v2/v3} written by C git or dulwich x staleness {none, new loose commits, new pack, "
+      "deleted refs, full repack / prune with the old files put back, files of another repository or pack}; every accelerator alone x writer x "
+      "staleness; ref-write sequences on packed vs loose refs (values from a small pool so earlier values recur); long-lived handles that see "
+      "an external repack/gc/new pack between warm-up and lookups.",
+      "get_peeled None is 'no cached information' by contract and not compared against a value; C git cannot read idx v3, so the idx is rewritten after the history was continued; on this tree the bitmap probe shows 0 bitmap-produced answers (find_commit_bitmaps looks hex ids up in a table keyed by binary ids, so BitmapReachability always falls back) - bitmap transparency therefore holds trivially and the check would see it if that changed",
+      "DESIGN.md §5 C14")
+
 ALL = ["C%02d" % i for i in range(1, 21)]
 
 
